@@ -734,7 +734,7 @@ def run(ctx):
     al = small_alphabet()
     lens = (1, 2) if q else (1, 2, 3)
     specs = [(1, 1, 1, list(w)) for n in lens for w in itertools.product(al, repeat=n)]
-    run_circuits(res, drv, specs, state_check=True, qiskit_check=not q or True)
+    run_circuits(res, drv, specs, state_check=True, qiskit_check=True)
     run_circuits(res, drv, list(all_wrappers(3 if q else 4)), state_check=False, qiskit_check=False)
     res.exhaustive = True
     res.notes.append(f"exhaustive: every operation sequence of length <= {max(lens)} over a {len(al)}-operation alphabet on e0,p0,c0 (barrier rule, "
